@@ -194,8 +194,9 @@ def boundary_zone(ctx, dim, width, shape, field_type):
             else:
                 if dist == 0:
                     # up to rounding: the back-face ramp evaluates sin(p*x_end - p*x) with both products rounded
-                    ctx.le(f"outermost_ring_is_zero_up_to_rounding:{name}", fa[c], 1e-12 * M)
-                    ctx.le(f"outermost_ring_is_zero_up_to_rounding(neg):{name}", -1e-12 * M, fa[c])
+                    rt = 1e-12 if ctx.real_t == np.float64 else 1e-5
+                    ctx.le(f"outermost_ring_is_zero_up_to_rounding:{name}", fa[c], rt * M)
+                    ctx.le(f"outermost_ring_is_zero_up_to_rounding(neg):{name}", -rt * M, fa[c])
                 ctx.le(f"zone_value_bounded_by_inner_edge_max:{name}", fa[c], M)
                 ctx.le(f"zone_value_bounded_below:{name}", -M, fa[c])
 
